@@ -294,6 +294,8 @@ def match_link_title(string, offset):
 
 
 def match_link_label(string, offset, root=None):
+    if not root:
+        return None
     start = -1
     end = -1
     escaped = False
